@@ -343,6 +343,29 @@ def run(ctx):
     dist = {"calls": 0, "calls_exact_magnitude": 0, "calls_rounded": 0, "calls_infinite_value": 0, "evals": 0, "evals_exact_magnitude": 0, "evals_rounded": 0,
             "declarations_accepted": 0, "declarations_rejected": 0, "not_shipped_to_coq(non-latin1/inf/nan token)": 0, "spellings": {}, "operators": {}, "n_constraints": {}}
 
+    # ---- 0. the class attributes the model transcribes (constants, operator table, default delta)
+    from platypus import core
+    for i, name in enumerate(["EQUALS_ZERO", "LEQ_ZERO", "GEQ_ZERO", "LESS_THAN_ZERO", "GREATER_THAN_ZERO"]):
+        sconst = getattr(Constraint, name, None)
+        if isinstance(sconst, str) and latin1(sconst):
+            lits.append("KConst %d %s" % (i, cps(sconst)))
+        else:
+            lits.append("KConst %d [0]" % i)
+        meta.append(("attr", name))
+        ctx.count()
+    funcs = [core._constraint_eq, core._constraint_leq, core._constraint_geq, core._constraint_neq, core._constraint_lt, core._constraint_gt]
+    ents = []
+    for key, f in Constraint.OPERATORS.items():
+        idx = [j for j, g in enumerate(funcs) if g is f]
+        ents.append("(%s, %d)" % (cps(key) if isinstance(key, str) and latin1(key) else "[0]", idx[0] if idx else -1))
+    lits.append("KTable %s" % C.list_lit(ents)); meta.append(("attr", "OPERATORS")); ctx.count()
+    dl = [(f.__defaults__ or (None,))[0] for f in (core._constraint_lt, core._constraint_gt)]
+    if all(isinstance(d, float) and d == d and abs(d) != INF for d in dl):
+        lits.append("KDelta %s %s" % (C.q_lit(dl[0]), C.q_lit(dl[1])))
+    else:
+        lits.append("KDelta (0 # 1) (0 # 1)")
+    meta.append(("attr", "delta")); ctx.count()
+
     # ---- 1. declarations: every spelling of every (operator, threshold) + malformed stream + separator sweep
     decl = []
     for op in OPS:
